@@ -15,7 +15,7 @@ claim("C10",
       "Trusted: go/ssa, os.File.Sync durability semantics, file identity by normalised access path. Not decided: equality of resumed and uninterrupted tables, safety of startPoint+1, the resume start point (deliberately not a rule).",
       "DESIGN.md §4 C10")
 claim("C07",
-      "must-pass-through (VerifyProof success edge) + provenance + read-completeness rule",
+      "must-pass-through (VerifyProof success edge) + provenance + read-completeness rule + window tiling + who-may-write census of the load/read path + worker-pool option census",
       "Decides only the clause 'every proof served verifies against the space's public key': on every path GetProof returns a non-nil proof only behind the success edge of poc.VerifyProof applied to the returned object, the DB's own key (hash) and the caller's challenge/filter; keeper forwards proof and error; miner keeps Error==nil only. Plus a necessary condition of table correctness: plotting reads are complete (io.ReadFull or tested count).",
       "Trusted: go/ssa, mass-core poc.VerifyProof as oracle. NOT decided (not applicable to static analysis): equality of the stored table with the construction, completeness (a proof is served whenever one exists), any number of windows.",
       "DESIGN.md §4 C07")
@@ -27,7 +27,7 @@ claim("C11",
       "DESIGN.md §4 C11")
 
 claim("C14",
-      "pairwise lockset analysis (must-held locks, interprocedural fixpoint, per-instance lock identity)",
+      "pairwise lockset analysis (must-held locks, interprocedural fixpoint, per-instance lock identity) + escape of mutex-guarded maps + census of goroutines started inside the wallet (effect check of their bodies)",
       "Decides only the lock-discipline half of 'free of data races': for every field of the wallet's shared types stored after construction, every store shares a held lock with every other access of that field, for all interleavings (a lockset fact is schedule-independent). Entry locksets are computed, not assumed; a.mu counts only when the locked object is the accessed object.",
       "Trusted: go/ssa, sync.Mutex semantics, composite literals under construction are unshared. NOT decided: linearizability/real-time order, races on pointees reached through method calls on loaded pointers (SecretKey.Zero, ManagedAddress fields), races inside mass-core/leveldb.",
       "DESIGN.md §4 C14")
@@ -51,13 +51,13 @@ claim("C15",
       "DESIGN.md §4 C15")
 
 claim("C19",
-      "provenance of every leveldb key + edge-cut dominance of name validation + handle discipline + sibling agreement (clone comparison)",
+      "provenance of every leveldb key + edge-cut dominance of name validation + handle discipline + sibling agreement (clone comparison) + who-may-delete census + subtree deletion order",
       "Structural isolation argument for the bucket store on every leveldb call site of package ldb: keys come only from the one key constructor (path+separator+key), index keys, or prefix iterators; every index write is dominated by validation of the name against the join separator; write buckets use only their own transaction, read-only buckets cannot write, BeginTx/Commit/Rollback map to the leveldb transaction; scans use path+separator prefixes and pathLen=len(path); the two bucket kinds agree operation-for-operation; db.Update has the rollback/commit shape.",
       "Trusted: go/ssa, goleveldb transaction semantics, util.BytesPrefix. NOT decided: map semantics for all operation sequences; adversarial keys beyond the separator rule; rdb (rocksdb tag, cgo) cannot be loaded and is out of scope.",
       "DESIGN.md §4 C19")
 
 claim("C20",
-      "handler provenance + edge-cut dominance in the 403 wrapper + constant evaluation (LAN table, listen address) + allow-edge census + clone comparison with the chain library + no-float effect check",
+      "handler provenance + edge-cut dominance in the 403 wrapper + constant evaluation (LAN table, listen address) + allow-edge census + clone comparison with the chain library + no-float effect check + error-flow of the transaction rendering loops",
       "Static: the only HTTP listener of the node serves accessControlHandler(inner, decision built from cfg.Whitelist/AllowedLan); inside, the inner handler runs only on the true edge of the decision on req.RemoteAddr and the false edge answers 403; gRPC binds a loopback constant; the LAN table evaluates to RFC 1918; every `return true` of the decision function is behind one of the four admitted tests and the lists come only from configuration; api.getBindingTarget is the chain library's construction and is fed (compressed key, default type, bl) / (plot id, chia type, k); the address derives from the same key; no floating point on the amount path.",
       "Trusted: go/ssa, net/http handler semantics, mass-core as the chain library's definition. Exception recorded: the opt-in pprof server on http.DefaultServeMux (verified to carry no API handler). NOT decided: the allow decision for all address spellings, canonical form and round trip of all amounts (values).",
       "DESIGN.md §4 C20")
@@ -69,7 +69,7 @@ claim("C16",
       "DESIGN.md §4 C16")
 
 claim("C17",
-      "stop-protocol shape check + wait-group discipline + channel close/send discipline + cancellation-arm rule + blocking-under-lock + call pairing + routing provenance + lockset of the current-task field",
+      "stop-protocol shape check + wait-group discipline + channel close/send discipline + cancellation-arm rule + blocking-under-lock + call pairing + routing provenance + lockset of the current-task field + worker-pool option census",
       "Decides ONLY the no-panic / prompt-return structure and two routing bindings of the cluster layer: CAS-guarded stop protocol of every component; every counted goroutine is added before start and defers Done; every channel field is closed once by its owning goroutine or under the task lock with unregistering, and every send on a closable channel is recover-guarded / in the closing function / under the closer's lock; every blocking operation of a waited goroutine has a cancellation arm; no blocking send under the task lock; AddTask paired with a deferred RemoveTask of the same request; a report is sent on the channel looked up by its own task id and carries the reporting collector's id; the current broadcast task (replayed to late subscribers) is read and written under one common lock (violated on the current tree: known finding D20, four accesses).",
       "Trusted: go/ssa, context cancellation, ants.Pool.Submit treated as asynchronous. NOT decided (not applicable to static analysis in reach): exactly-once delivery beyond the lock discipline of the current-task field, per-connection order, behaviour for all topologies and drop points.",
       "DESIGN.md §4 C17")
